@@ -25,6 +25,25 @@ import (
 const verifDir = "/verif"
 
 func main() {
+	// external-worker mode (used for the race-detector build): VERIF_SPEC=worker,prop,tier,seed | case,prop,tier,seed,n | replay,path
+	if spec := os.Getenv("VERIF_SPEC"); spec != "" {
+		f := strings.Split(spec, ",")
+		switch f[0] {
+		case "worker":
+			os.Unsetenv("VERIF_SPEC")
+			worker(os.Getenv("VERIF_SPEC_PROP"), f[1], mustSeed(f[2]))
+		case "case":
+			p := mustProp(os.Getenv("VERIF_SPEC_PROP"))
+			limitMemory()
+			selfCheck()
+			n, _ := strconv.Atoi(f[3])
+			fw.PrintCase(p, f[1], mustSeed(f[2]), n)
+		case "replay":
+			selfCheck()
+			os.Exit(fw.ReplayMain(f[1]))
+		}
+		return
+	}
 	if len(os.Args) < 2 {
 		usage()
 	}
@@ -214,7 +233,7 @@ func drive(prop, tier string) int {
 				cmd.Env = append(os.Environ(), "GOMAXPROCS=2")
 				if p.External != nil {
 					cmd = exec.Command(p.External.Bin, p.External.Args...)
-					cmd.Env = append(os.Environ(), "GOMAXPROCS=4", p.External.Env+"=worker,"+tier+","+strconv.FormatInt(seed, 10))
+					cmd.Env = append(append(os.Environ(), "GOMAXPROCS=4", p.External.Env+"=worker,"+tier+","+strconv.FormatInt(seed, 10), "VERIF_SPEC_PROP="+prop), p.External.ExtraEnv...)
 				}
 				stdin, _ := cmd.StdinPipe()
 				stdout, _ := cmd.StdoutPipe()
@@ -284,7 +303,7 @@ func drive(prop, tier string) int {
 		cmd.Env = append(os.Environ(), "GOMAXPROCS=2")
 		if p.External != nil {
 			cmd = exec.Command(p.External.Bin, p.External.Args...)
-			cmd.Env = append(os.Environ(), "GOMAXPROCS=4", p.External.Env+"=case,"+tier+","+strconv.FormatInt(seed, 10)+","+strconv.Itoa(d.caseNo))
+			cmd.Env = append(append(os.Environ(), "GOMAXPROCS=4", p.External.Env+"=case,"+tier+","+strconv.FormatInt(seed, 10)+","+strconv.Itoa(d.caseNo), "VERIF_SPEC_PROP="+prop), p.External.ExtraEnv...)
 		}
 		var eb strings.Builder
 		cmd.Stderr = &limitedWriter{w: &eb, n: 64 << 10}
@@ -550,7 +569,7 @@ func replay(path string) int {
 	p := mustProp(rf.Property)
 	if p.External != nil {
 		cmd := exec.Command(p.External.Bin, p.External.Args...)
-		cmd.Env = append(os.Environ(), p.External.Env+"=replay,"+path)
+		cmd.Env = append(append(os.Environ(), p.External.Env+"=replay,"+path, "VERIF_SPEC_PROP="+rf.Property), p.External.ExtraEnv...)
 		cmd.Stdout, cmd.Stderr = os.Stdout, os.Stderr
 		if err := cmd.Run(); err != nil {
 			if ee, ok := err.(*exec.ExitError); ok {
